@@ -352,7 +352,13 @@ class Lexer:
 
             elif state == 312:  # hex num second digit
                 tempbuf += ch
-                token += chr(int(tempbuf, 16))
+                try:
+                    token += chr(int(tempbuf, 16))
+                except ValueError:
+                    raise CklSyntaxError(
+                        f"Invalid hex escape \\x{tempbuf}",
+                        SourcePos(fname, line, column),
+                    )
                 tempbuf = ""
                 state = 3
 
@@ -389,7 +395,13 @@ class Lexer:
 
             elif state == 412:  # hex num second digit
                 tempbuf += ch
-                token += chr(int(tempbuf, 16))
+                try:
+                    token += chr(int(tempbuf, 16))
+                except ValueError:
+                    raise CklSyntaxError(
+                        f"Invalid hex escape \\x{tempbuf}",
+                        SourcePos(fname, line, column),
+                    )
                 tempbuf = ""
                 state = 4
 
@@ -452,7 +464,12 @@ class Lexer:
                     token += ch
                 elif ch in "()[]<>=! \t\n\r+-*/%,;#":
                     here = SourcePos(fname, line, column - len(token))
-                    token = str(int(token.replace("_", ""), 16))
+                    try:
+                        token = str(int(token.replace("_", ""), 16))
+                    except ValueError:
+                        raise CklSyntaxError(
+                            f"Invalid hex literal 0x{token}", here
+                        )
                     self.tokens.append(Token(token, "int", here))
                     token = ""
                     pos -= 1
@@ -467,9 +484,13 @@ class Lexer:
                     token += ch
                 elif ch in "()[]<>=! \t\n\r+-*/%,;#":
                     here = SourcePos(fname, line, column - len(token))
-                    self.tokens.append(
-                        Token(str(int(token.replace("_", ""), 2)), "int", here)
-                    )
+                    try:
+                        token = str(int(token.replace("_", ""), 2))
+                    except ValueError:
+                        raise CklSyntaxError(
+                            f"Invalid binary literal 0b{token}", here
+                        )
+                    self.tokens.append(Token(token, "int", here))
                     token = ""
                     pos -= 1
                     updatepos = False
